@@ -59,6 +59,9 @@ def result_canon(res):
                 hashlib.sha256(arr_bytes(e)).hexdigest(),
             )
         )
+    # order keys are compared as a mapping key → (values, errors): the insertion sequence of
+    # the dict is not part of what the properties promise
+    orders.sort(key=lambda t: t[0])
     return (cls, tuple(kin), tuple(orders))
 
 
